@@ -363,6 +363,25 @@ def rule_iter_finish(ctx, crate, rule="R-ITER-FINISH"):
             some_ok = exhausted_only(b, crate, c, inner)
             ctx.check(some_ok, rule, "only-when-exhausted", b.name, c.loc(), "finish happens only where the inner iterator returned None",
                       "the bar can be finished although the inner iterator produced an item", cfg)
+    # any *other* method the adaptor overrides in these traits drives the wrapped iterator itself (fold, nth, try_fold, ..): it has to
+    # be one of the analysed three, or a pure query - an override that exhausts the inner iterator without finishing the bar
+    # (`fold` behind for_each/sum/count/last) skips the final frame whenever another handle keeps the bar alive
+    QUERIES = ("size_hint", "len", "is_empty", "opt_len")
+    for bb_ in K.lib_bodies(crate):
+        im = bb_.impl or {}
+        if bb_.kind == "Closure" or (im.get("self_head") or "") != "iter::ProgressBarIter":
+            continue
+        if im.get("trait") not in ("std::iter::Iterator", "std::iter::DoubleEndedIterator", "futures_core::Stream"):
+            continue
+        m = K.meth(bb_.name)
+        if m in ("next", "next_back", "poll_next") or m in QUERIES:
+            continue
+        n += 1
+        fins = bb_.calls(r"progress_bar::ProgressBar::finish_using_style")
+        ctx.check(bool(fins), rule, "override-finishes:%s" % m, bb_.name, K.fn_loc(bb_),
+                  "%s finishes the bar when it exhausts the wrapped iterator" % m,
+                  "the adaptor overrides %s(), which drives the wrapped iterator itself, without finishing the bar: exhausting the iterator through it (for_each, sum, count, "
+                  "last build on fold) paints no final frame while another handle of the bar is alive" % m, cfg)
     ctx.floor(rule, n, 2, cfg, "iterator adaptors")
 
 
